@@ -19,6 +19,7 @@ func checkC15(c *Ctx, r *Report) {
 	r.Explanation = "The generated parser is analysed as a staged program: for each of the four Go skeletons the call graph from Parser is built on the type-checked source, and every store (assignment, op-assignment, ++/--) is attributed to its root variable. Global mode: stores reachable from Parser must hit only the stack and its pointer; every other package-level variable the parser reads (tables, IsTrace) must never be stored to anywhere in the generated code. Object mode: no package-level store is reachable from (*Context).Parser, all stores go through the receiver — distinct contexts share no mutable state, which is the race-freedom argument. ParserInit / MakeParserContext re-establish {state 0, end marker} in slot 0 and pointer 1. TypeScript: initialize() assigns both variables (token-level). Not decided: user code in actions and GetToken; aliasing of the returned *ValType into the stack; stack underflow (slot 0 of a re-used context keeps the initial entry only as long as the pointer never drops below 1)."
 	r.Assumptions = append(r.Assumptions, "user actions and GetToken keep no state between calls", "the stack never underflows (tables are correct), so slot 0 of a context always holds the initial entry")
 	st := c.GetStaged()
+	stagedErrors(r, "C15", st)
 	sks := quickSkeletons(st)
 	if len(sks) < 4 {
 		r.Undecided("C15.a", "R12 STATE-INVENTORY", "skeletons", "-", fmt.Sprintf("only %d of 4 skeletons available: %v", len(sks), st.Errs))
